@@ -20,7 +20,10 @@
      SupervisorOrClosed : FALSE = the stream supervisor waits for Connected with WaitUntil (as coded): on a Closed connection it waits forever *)
 EXTENDS Integers, Sequences, FiniteSets, TLC, Json, SequencesExt, FiniteSetsExt
 
-CONSTANTS Streams, Callers, MaxFaults, MaxDialFails, MaxResumeNg, WatcherByEpoch, HookCurrent, SwapGuarded, SupervisorOrClosed, RetryByEpoch, AllowClose
+CONSTANTS Streams, Callers, MaxFaults, MaxDialFails, MaxResumeNg, WatcherByEpoch, HookCurrent, SwapGuarded, SupervisorOrClosed, RetryByEpoch, AllowClose,
+          EpochBeforeResume,   \* TRUE = the stream records the reconnect epoch before it reads c.wireConn and starts the resume exchange (as coded);
+                               \* FALSE = after the resume response (a variant that misses an outage decided during the exchange)
+          HalfBroken           \* TRUE = the environment may also break only the write direction of a link (writes fail, reads are still delivered)
 
 VARIABLES s, script
 vars == <<s, script>>
@@ -30,6 +33,7 @@ Init0 ==
   [ cs |-> "connected", epoch |-> 0,
     inc |-> 1,                    \* incarnation c.wireConn refers to
     alive |-> TRUE,               \* link of incarnation inc is up
+    wfail |-> 0,                  \* incarnation whose write direction is broken: writes report an error, reads are still delivered
     wclosed |-> {},               \* incarnations whose wire connection was closed by the client
     main |-> "run",               \* run loop pc
     dialing |-> 0,                \* incarnation being established by reconnect()
@@ -49,17 +53,26 @@ Quiet == UNCHANGED script
 \* every status change broadcasts: all parked waiters become woken
 Wake(x) == [x EXCEPT !.st = [y \in Streams |-> IF x.st[y].w = "parked" THEN [x.st[y] EXCEPT !.w = "woken"] ELSE x.st[y]],
                      !.ca = [p \in Callers |-> IF x.ca[p].w = "parked" THEN [x.ca[p] EXCEPT !.w = "woken"] ELSE x.ca[p]]]
-SetCs(x, v) == Wake([x EXCEPT !.cs = v, !.epoch = IF v = "reconnecting" THEN @ + 1 ELSE @])
+\* (state.go SwapWithoutLock: the epoch counts the transitions INTO Reconnecting; a second swap while already Reconnecting - reconnect()
+\*  after send() has started the outage - does not advance it)
+SetCs(x, v) == Wake([x EXCEPT !.cs = v, !.epoch = IF v = "reconnecting" /\ x.cs # "reconnecting" THEN @ + 1 ELSE @])
 
 \* ---------------------------------------------------------------- environment: link
 LinkDown ==
     /\ s.alive /\ s.faults < MaxFaults /\ s.cs # "closed" /\ s.cl = "idle"
-    /\ s' = [s EXCEPT !.alive = FALSE, !.faults = @ + 1, !.outages = @ + 1]
+    /\ s' = [s EXCEPT !.alive = FALSE, !.faults = @ + 1, !.outages = IF s.wfail = s.inc THEN @ ELSE @ + 1]   \* one outage per connection
     /\ Say([a |-> "cut"])
+
+\* only the write direction breaks: the next write (application request or keep-alive ping) reports an error, while messages
+\* the broker has sent or still sends are delivered
+WriteBreaks ==
+    /\ HalfBroken /\ s.alive /\ s.wfail # s.inc /\ s.faults < MaxFaults /\ s.cs = "connected" /\ s.cl = "idle" /\ s.inc \notin s.wclosed
+    /\ s' = [s EXCEPT !.wfail = s.inc, !.faults = @ + 1, !.outages = @ + 1]
+    /\ Say([a |-> "wfail"])
 
 \* keep-alive (or the reader) notices the dead link: the wire connection closes itself
 WireSelfClose ==
-    /\ ~s.alive /\ s.inc \notin s.wclosed /\ s.main = "run"
+    /\ (~s.alive \/ s.wfail = s.inc) /\ s.inc \notin s.wclosed /\ s.main = "run"
     /\ s' = [s EXCEPT !.wclosed = @ \cup {s.inc}]
     /\ Quiet
 
@@ -130,6 +143,7 @@ WaitConnCheck(y) ==
 ResumeOk(y) ==
     /\ s.st[y].pc = "resume" /\ s.st[y].bound = s.inc /\ s.alive /\ s.st[y].bound \notin s.wclosed
     /\ s' = [s EXCEPT !.st[y].pc = "watch", !.st[y].w = "woken", !.st[y].resumed = @ + 1, !.st[y].resumeOn = @ \cup {s.inc},
+                      !.st[y].ep = IF EpochBeforeResume THEN @ ELSE s.epoch,
                       !.sentAfterDisconnect = @ \/ s.inc \in s.disconnectSent]
     /\ Say([a |-> "resumeResp", st |-> y, ok |-> TRUE])
 ResumeNg(y) ==
@@ -138,7 +152,7 @@ ResumeNg(y) ==
     /\ Say([a |-> "resumeResp", st |-> y, ok |-> FALSE])
 \* the resume exchange is cut (or the stream bound to an incarnation that is already gone): stream closed with an error
 ResumeCut(y) ==
-    /\ s.st[y].pc = "resume" /\ (s.st[y].bound # s.inc \/ ~s.alive \/ s.st[y].bound \in s.wclosed)
+    /\ s.st[y].pc = "resume" /\ (s.st[y].bound # s.inc \/ ~s.alive \/ s.st[y].bound \in s.wclosed \/ s.wfail = s.inc)
     /\ s' = [s EXCEPT !.st[y].pc = "dead", !.st[y].closedErr = TRUE]
     /\ Quiet
 
@@ -165,7 +179,7 @@ SendLock(p) ==
     /\ Quiet
 \* the request is written on c.wireConn and answered
 SendOk(p) ==
-    /\ s.ca[p].pc = "inCall" /\ s.alive /\ s.inc \notin s.wclosed
+    /\ s.ca[p].pc = "inCall" /\ s.alive /\ s.inc \notin s.wclosed /\ s.wfail # s.inc
     /\ s' = [s EXCEPT !.mu = "none", !.ca[p].pc = "done", !.ca[p].res = "ok", !.ca[p].sentOn = @ \cup {s.inc},
                       !.sentAfterDisconnect = @ \/ s.inc \in s.disconnectSent]
     /\ Say([a |-> "answer", g |-> p])
@@ -176,7 +190,7 @@ SendFailsClosed(p) ==
     /\ Quiet
 \* the write fails on the dead link before keep-alive noticed: also ErrConnectionClosed (transport closed)
 SendFailsDead(p) ==
-    /\ s.ca[p].pc = "inCall" /\ ~s.alive /\ s.inc \notin s.wclosed
+    /\ s.ca[p].pc = "inCall" /\ (~s.alive \/ s.wfail = s.inc) /\ s.inc \notin s.wclosed
     /\ s' = [s EXCEPT !.mu = "none", !.ca[p].pc = "gotErr", !.ca[p].sentOn = @]
     /\ Quiet
 \* CompareAndSwapNot(Closed, Reconnecting) and retry -- with whatever the status is NOW (a stale error re-triggers an outage)
@@ -205,7 +219,7 @@ CloseDisc ==
     /\ Quiet
 
 Next ==
-    \/ LinkDown \/ WireSelfClose \/ RunExitsErr \/ RunExitsClosed \/ RecLock \/ DialOk \/ DialFail \/ RecSwap \/ Notify
+    \/ LinkDown \/ WriteBreaks \/ WireSelfClose \/ RunExitsErr \/ RunExitsClosed \/ RecLock \/ DialOk \/ DialFail \/ RecSwap \/ Notify
     \/ \E y \in Streams : WatchCheck(y) \/ WaitConnCheck(y) \/ ResumeOk(y) \/ ResumeNg(y) \/ ResumeCut(y)
     \/ \E p \in Callers : ApiCall(p) \/ SendWaitCheck(p) \/ SendCtxDone(p) \/ SendLock(p) \/ SendOk(p) \/ SendFailsClosed(p) \/ SendFailsDead(p) \/ SendRetry(p)
     \/ CloseCall \/ CloseLock \/ CloseDisc
@@ -217,7 +231,7 @@ Spec == Init /\ [][Next]_vars
 TokenPerDial == s.tokens = s.dials
 \* C05: never silently detached: when the connection is up again and everything has settled, every live stream is bound
 \* to the current incarnation (it resumed there) -- or was reported closed
-Settled(x) == /\ x.cs = "connected" /\ x.main = "run" /\ x.alive /\ x.inc \notin x.wclosed
+Settled(x) == /\ x.cs = "connected" /\ x.main = "run" /\ x.alive /\ x.inc \notin x.wclosed /\ x.wfail # x.inc
               /\ \A y \in Streams : x.st[y].pc \in {"watch", "dead"} /\ x.st[y].w # "woken"
               /\ \A p \in Callers : x.ca[p].pc \in {"idle", "done"}
 NoStreamDetached == Settled(s) => \A y \in Streams : s.st[y].pc = "dead" \/ s.st[y].bound = s.inc
